@@ -91,6 +91,19 @@ impl VisitMut for BlockTransformVisitor<'_> {
         arrow.visit_mut_children_with(self);
     }
 
+    fn visit_mut_ident(&mut self, ident: &mut Ident) {
+        // identifiers the operation visitor never sees (parameters of top-level and arrow
+        // functions, declarations outside every block) could clash with an injected variable too
+        if ident.span != DUMMY_SP
+            && ident
+                .sym
+                .starts_with(&get_dd_local_variable_prefix(&self.config.local_var_prefix))
+            && !self.visit_is_cancelled()
+        {
+            self.cancel_visit("Variable name duplicated");
+        }
+    }
+
     fn visit_mut_program(&mut self, node: &mut Program) {
         node.visit_mut_children_with(self);
 
